@@ -59,7 +59,7 @@ func (c07) build(src *gen.Source) *Case {
 	if src.Chance(1, 4) {
 		// a benign alias table (values keep every command well-formed): substitution at command position,
 		// trailing-blank aliases that make the next word eligible, a value spanning two lines
-		c.Aliases = [][2]string{{"cat", "cat -n "}, {"grep", "grep -q"}, {"ls", "ls -l "}, {"x1", "x1 "}, {"true", "true"}, {"_f", "_f a"}}
+		c.Aliases = [][2]string{{"cat", "cat -n "}, {"grep", "grep -q $(a b)"}, {"ls", "ls -l "}, {"x1", "x1 "}, {"true", "true `x y`"}, {"_f", "_f $((1+2)) a"}, {"echo", "echo $(date +%F) \"$(b)\""}}
 		nlAliases = src.Chance(1, 2)
 	}
 	g := gen.NewG(src, o)
